@@ -103,3 +103,31 @@ def declare(reg):
     b = reg.properties.setdefault("C12", {}).setdefault("bounded", [])
     b.append({"name": "sequence-codec-exhaustive", "module": "harness.persist", "func": "Codec"})
     b.append({"name": "restart-e2e", "module": "harness.persist", "func": "Restart"})
+
+    # ---- management_task: every dequeued command is released (C06 wake-up obligation, safety form of 'answered promptly') ----
+    reg.contract("<random>", "random.randrange", params={"a": "int", "b": "int"}, ret="int", ensures={"range": "a <= result and result < b"}, **T, note="stdlib")
+    reg.contract("<asyncio>", "Queue.get", params={"self": "ref:Queue"}, ret="ref:IMAPClientCommand", yields=True, **T,
+                 note="A-ASYNC: waits for the next queued command (may be cut short by the enclosing asyncio.timeout)")
+    reg.contract(P, "Mailbox._cleanup_executing_tasks", params={"self": "ref:Mailbox"}, modifies=["self.executing_tasks"], **T,
+                 note="assumed: drops completed commands from executing_tasks")
+    reg.contract(P, "Mailbox.command_can_proceed", params={"self": "ref:Mailbox", "imap_cmd": "ref:IMAPClientCommand"}, modifies=["self.executing_tasks"],
+                 yields=True, **T, note="assumed: polls would_conflict until the command may run (would_conflict itself is proved under C10)")
+    REL = "cur_path('imap_cmd', 'ready.g_set', True)"
+    reg.contract(
+        P, "Mailbox.management_task", params={"self": "ref:Mailbox"},
+        raises={},
+        loops={0: {"invariant": {
+            # wake-up obligation: whatever happened in an iteration (normal admission, BAD for an unresolvable set, resync),
+            # the command taken from the queue in that iteration has been released
+            "dequeued-command-released": REL,
+        }}},
+        modifies=["self.executing_tasks", "IMAPClientCommand.msg_set_as_set", "IMAPClientCommand.resolve_error", "Event.g_set", "Queue.g_items",
+                  "self.last_resync", "self.mtime", "self.optional_resync", "self.msg_keys", "self.uids", "self.num_msgs", "self.num_recent", "self.sequences", "self.next_uid",
+                  "self._msg_key_to_idx", "self._uid_to_idx", "self.attributes", "MH.g_seqs", "MH.g_keys", "MH.g_content", "*.pending_notifications", "ClientProxy.g_out",
+                  "self.g_db_exists", "self.g_db_uid_vv", "self.g_db_next_uid", "self.g_db_uids", "self.g_db_msg_keys", "self.g_db_subscribed", "self.g_db_num_msgs"],
+        ghost={"assume_pre_of": ["_pack_if_necessary", "check_new_msgs_and_flags", "msg_set_to_msg_seq_set"]},
+        is_async=True,
+        props=["C06"],
+        note="the preconditions of the resync/pack callees (environment assumption E1, Inv(Mailbox)) are assumed at their call sites here; "
+             "exceptions other than Bad raised by callees between dequeue and release are not modelled (the blanket `except Exception: ignore` would then leave the command waiting)",
+    )
